@@ -123,7 +123,9 @@ package atree
 //@   ensures[C06] err == nil ==> wfMeta(a) && wfMeta(as(right, *ArrayMetaDataSlab)) && as(right, *ArrayMetaDataSlab).extraData == nil
 //@   ensures[C09] err == nil ==> a.header.slabID == old(a.header.slabID) && as(right, *ArrayMetaDataSlab).header.slabID.address == old(a.header.slabID.address) &&
 //@        as(right, *ArrayMetaDataSlab).header.slabID != SlabIDUndefined && sto[as(right, *ArrayMetaDataSlab).header.slabID] == nil
-//@   modifies a.childrenHeaders, a.childrenCountSum, a.header, ghost.touched, alloc
+//@   # the identifier of the new slab was not handed out before (so it differs from identifiers generated earlier but not stored yet)
+//@   ensures[C09] err == nil ==> !has(old(issued), as(right, *ArrayMetaDataSlab).header.slabID) && has(issued, as(right, *ArrayMetaDataSlab).header.slabID) && (forall id SlabID :: has(old(issued), id) ==> has(issued, id))
+//@   modifies a.childrenHeaders, a.childrenCountSum, a.header, ghost.touched, alloc, ghost.issued
 //@   loop 1: invariant 0 <= i && i <= leftChildrenCount && leftChildrenCount <= len(a.childrenHeaders) && leftCount == ite(i > 0, a.childrenCountSum[i - 1], 0) &&
 //@        (i < len(a.childrenHeaders) ==> a.childrenCountSum[i] == leftCount + a.childrenHeaders[i].count)
 //@   loop 2: invariant 0 <= i && i <= len(rightSlab.childrenCountSum) && len(rightSlab.childrenCountSum) == len(rightSlab.childrenHeaders) &&
@@ -132,9 +134,9 @@ package atree
 //@        (i > 0 ==> rightSlab.childrenCountSum[0] == rightSlab.childrenHeaders[0].count) &&
 //@        (forall k :: 1 <= k && k < i ==> rightSlab.childrenCountSum[k] == rightSlab.childrenCountSum[k - 1] + rightSlab.childrenHeaders[k].count)
 
-//@ # LendToRight / BorrowFromRight of index slabs: contracts stated here; bodies not yet verified (trusted, listed in evidence)
+//@ # LendToRight / BorrowFromRight of index slabs: headers move between the siblings, cumulative counts and totals are rebuilt
 //@ func (a *ArrayMetaDataSlab) LendToRight(slab) (err)  serves C01 C05 C06
-//@   trusted "body not yet verified by govc"
+//@   uses monoCS
 //@   requires is(slab, *ArrayMetaDataSlab) && a != slab && wfMeta(a) && wfMeta(as(slab, *ArrayMetaDataSlab))
 //@   requires a.header.size <= maxThreshold && as(slab, *ArrayMetaDataSlab).header.size < minThreshold
 //@   requires canLendMeta(a, minThreshold - as(slab, *ArrayMetaDataSlab).header.size)
@@ -145,12 +147,21 @@ package atree
 //@        (forall k :: 0 <= k && k < len(a.childrenHeaders) ==> a.childrenHeaders[k] == old(a.childrenHeaders)[k]) &&
 //@        (forall k :: 0 <= k && k < len(old(a.childrenHeaders)) - len(a.childrenHeaders) ==> as(slab, *ArrayMetaDataSlab).childrenHeaders[k] == old(a.childrenHeaders)[len(a.childrenHeaders) + k]) &&
 //@        (forall k :: 0 <= k && k < len(old(as(slab, *ArrayMetaDataSlab).childrenHeaders)) ==> as(slab, *ArrayMetaDataSlab).childrenHeaders[len(old(a.childrenHeaders)) - len(a.childrenHeaders) + k] == old(as(slab, *ArrayMetaDataSlab).childrenHeaders)[k])
-//@   ensures a.header.count + as(slab, *ArrayMetaDataSlab).header.count == old(a.header.count) + old(as(slab, *ArrayMetaDataSlab).header.count) &&
-//@        a.header.slabID == old(a.header.slabID) && as(slab, *ArrayMetaDataSlab).header.slabID == old(as(slab, *ArrayMetaDataSlab).header.slabID)
-//@   modifies a.childrenHeaders, a.childrenCountSum, a.header, as(slab, *ArrayMetaDataSlab).childrenHeaders, as(slab, *ArrayMetaDataSlab).childrenCountSum, as(slab, *ArrayMetaDataSlab).header, ghost.touched
+//@   ensures a.header.slabID == old(a.header.slabID) && as(slab, *ArrayMetaDataSlab).header.slabID == old(as(slab, *ArrayMetaDataSlab).header.slabID)
+//@   ensures a.header.count + as(slab, *ArrayMetaDataSlab).header.count == old(a.header.count) + old(as(slab, *ArrayMetaDataSlab).header.count)
+//@   modifies a.childrenHeaders, a.childrenCountSum, a.header, as(slab, *ArrayMetaDataSlab).childrenHeaders, as(slab, *ArrayMetaDataSlab).childrenCountSum, as(slab, *ArrayMetaDataSlab).header, ghost.touched, alloc
+//@   loop 1: invariant 0 <= i && i <= len(rightSlab.childrenCountSum) && len(rightSlab.childrenCountSum) == len(rightSlab.childrenHeaders) &&
+//@        countSum == ite(i > 0, rightSlab.childrenCountSum[i - 1], 0) && (i > 0 ==> rightSlab.childrenCountSum[0] == rightSlab.childrenHeaders[0].count) &&
+//@        (forall k :: 1 <= k && k < i ==> rightSlab.childrenCountSum[k] == rightSlab.childrenCountSum[k - 1] + rightSlab.childrenHeaders[k].count)
+//@   loop 1: invariant 1 <= leftChildrenHeaderCount && 0 <= moveCount && leftChildrenHeaderCount + moveCount == len(old(a.childrenHeaders)) &&
+//@        countSum == ite(i <= moveCount, old(a.childrenCountSum)[leftChildrenHeaderCount + i - 1] - old(a.childrenCountSum)[leftChildrenHeaderCount - 1],
+//@            old(a.header.count) - old(a.childrenCountSum)[leftChildrenHeaderCount - 1] + old(as(slab, *ArrayMetaDataSlab).childrenCountSum)[i - moveCount - 1])
+//@   loop 2: invariant 0 <= i && i <= len(rightSlab.childrenHeaders) && rightSlab.header.count == ite(i > 0, rightSlab.childrenCountSum[i - 1], 0) &&
+//@        rightSlab.header.slabID == old(as(slab, *ArrayMetaDataSlab).header.slabID)
+//@   loop 3: invariant 0 <= i && i <= len(a.childrenHeaders) && a.header.count == ite(i > 0, a.childrenCountSum[i - 1], 0) && a.header.slabID == old(a.header.slabID)
 
 //@ func (a *ArrayMetaDataSlab) BorrowFromRight(slab) (err)  serves C01 C05 C06
-//@   trusted "body not yet verified by govc"
+//@   uses monoCS
 //@   requires is(slab, *ArrayMetaDataSlab) && a != slab && wfMeta(a) && wfMeta(as(slab, *ArrayMetaDataSlab))
 //@   requires as(slab, *ArrayMetaDataSlab).header.size <= maxThreshold && a.header.size < minThreshold
 //@   requires canLendMeta(as(slab, *ArrayMetaDataSlab), minThreshold - a.header.size)
@@ -161,9 +172,18 @@ package atree
 //@        (forall k :: 0 <= k && k < len(old(a.childrenHeaders)) ==> a.childrenHeaders[k] == old(a.childrenHeaders)[k]) &&
 //@        (forall k :: len(old(a.childrenHeaders)) <= k && k < len(a.childrenHeaders) ==> a.childrenHeaders[k] == old(as(slab, *ArrayMetaDataSlab).childrenHeaders)[k - len(old(a.childrenHeaders))]) &&
 //@        (forall k :: 0 <= k && k < len(as(slab, *ArrayMetaDataSlab).childrenHeaders) ==> as(slab, *ArrayMetaDataSlab).childrenHeaders[k] == old(as(slab, *ArrayMetaDataSlab).childrenHeaders)[k + len(a.childrenHeaders) - len(old(a.childrenHeaders))])
-//@   ensures a.header.count + as(slab, *ArrayMetaDataSlab).header.count == old(a.header.count) + old(as(slab, *ArrayMetaDataSlab).header.count) &&
-//@        a.header.slabID == old(a.header.slabID) && as(slab, *ArrayMetaDataSlab).header.slabID == old(as(slab, *ArrayMetaDataSlab).header.slabID)
-//@   modifies a.childrenHeaders, a.childrenCountSum, a.header, as(slab, *ArrayMetaDataSlab).childrenHeaders, as(slab, *ArrayMetaDataSlab).childrenCountSum, as(slab, *ArrayMetaDataSlab).header, ghost.touched
+//@   ensures a.header.slabID == old(a.header.slabID) && as(slab, *ArrayMetaDataSlab).header.slabID == old(as(slab, *ArrayMetaDataSlab).header.slabID)
+//@   ensures a.header.count + as(slab, *ArrayMetaDataSlab).header.count == old(a.header.count) + old(as(slab, *ArrayMetaDataSlab).header.count)
+//@   modifies a.childrenHeaders, a.childrenCountSum, a.header, as(slab, *ArrayMetaDataSlab).childrenHeaders, as(slab, *ArrayMetaDataSlab).childrenCountSum, as(slab, *ArrayMetaDataSlab).header, ghost.touched, alloc
+//@   loop 1: invariant oldLeftChildrenHeaderCount <= i && i <= len(a.childrenHeaders) && len(a.childrenCountSum) == i && 1 <= oldLeftChildrenHeaderCount &&
+//@        countSum == a.childrenCountSum[i - 1] && a.childrenCountSum[0] == a.childrenHeaders[0].count &&
+//@        (forall k :: 1 <= k && k < i ==> a.childrenCountSum[k] == a.childrenCountSum[k - 1] + a.childrenHeaders[k].count) &&
+//@        countSum == old(a.header.count) + ite(i > oldLeftChildrenHeaderCount, old(as(slab, *ArrayMetaDataSlab).childrenCountSum)[i - oldLeftChildrenHeaderCount - 1], 0)
+//@   loop 2: invariant 0 <= i && i <= len(rightSlab.childrenCountSum) && len(rightSlab.childrenCountSum) == len(rightSlab.childrenHeaders) &&
+//@        countSum == ite(i > 0, rightSlab.childrenCountSum[i - 1], 0) && (i > 0 ==> rightSlab.childrenCountSum[0] == rightSlab.childrenHeaders[0].count) &&
+//@        (forall k :: 1 <= k && k < i ==> rightSlab.childrenCountSum[k] == rightSlab.childrenCountSum[k - 1] + rightSlab.childrenHeaders[k].count) &&
+//@        0 <= moveCount && moveCount + len(rightSlab.childrenHeaders) == len(old(as(slab, *ArrayMetaDataSlab).childrenHeaders)) &&
+//@        countSum == ite(i > 0, old(as(slab, *ArrayMetaDataSlab).childrenCountSum)[moveCount + i - 1] - ite(moveCount > 0, old(as(slab, *ArrayMetaDataSlab).childrenCountSum)[moveCount - 1], 0), 0)
 
 //@ # ---- ghost tree-shape relation used only in frames: inSub(x, r) = slab object r belongs to the subtree rooted at slab object x
 //@ ghost inSub : fn(x ref, r ref) bool
@@ -199,7 +219,7 @@ package atree
 //@   ensures[C05] err == nil ==> hdrBand(a.childrenHeaders[chi]) && hdrBand(a.childrenHeaders[chi + 1]) && nodeWF(sto[a.childrenHeaders[chi].slabID]) && nodeWF(sto[a.childrenHeaders[chi + 1].slabID])
 //@   ensures[C01 C03] err == nil ==> has(stored, a) && has(stored, sto[a.childrenHeaders[chi].slabID]) && has(stored, sto[a.childrenHeaders[chi + 1].slabID])
 //@   ensures[C09] forall id SlabID :: old(sto[id]) != nil && id != old(a.header.slabID) && id != old(a.childrenHeaders)[chi].slabID ==> sto[id] == old(sto[id])
-//@   modifies a.childrenHeaders, a.childrenCountSum, a.header, ghost.sto, ghost.stored, ghost.touched, alloc,
+//@   modifies a.childrenHeaders, a.childrenCountSum, a.header, ghost.sto, ghost.issued, ghost.stored, ghost.touched, alloc,
 //@        as(child, *ArrayDataSlab).elements, as(child, *ArrayDataSlab).header, as(child, *ArrayDataSlab).next,
 //@        as(child, *ArrayMetaDataSlab).childrenHeaders, as(child, *ArrayMetaDataSlab).childrenCountSum, as(child, *ArrayMetaDataSlab).header
 
@@ -229,7 +249,7 @@ package atree
 //@   ensures[C09] err == nil ==> agree(a)
 //@   ensures[C01 C03] err == nil ==> has(stored, a) && has(stored, l) && has(stored, r)
 //@   ensures[C09] forall id SlabID :: id != old(a.header.slabID) && id != old(a.childrenHeaders)[li].slabID && id != old(a.childrenHeaders)[ri].slabID ==> sto[id] == old(sto[id])
-//@   modifies a.childrenHeaders, a.childrenCountSum, ghost.sto, ghost.stored, ghost.touched, alloc,
+//@   modifies a.childrenHeaders, a.childrenCountSum, ghost.sto, ghost.issued, ghost.stored, ghost.touched, alloc,
 //@        as(l, *ArrayDataSlab).elements, as(l, *ArrayDataSlab).header, as(r, *ArrayDataSlab).elements, as(r, *ArrayDataSlab).header,
 //@        as(l, *ArrayMetaDataSlab).childrenHeaders, as(l, *ArrayMetaDataSlab).childrenCountSum, as(l, *ArrayMetaDataSlab).header,
 //@        as(r, *ArrayMetaDataSlab).childrenHeaders, as(r, *ArrayMetaDataSlab).childrenCountSum, as(r, *ArrayMetaDataSlab).header
@@ -253,7 +273,7 @@ package atree
 //@   ensures[C09] err == nil ==> agree(a)
 //@   ensures[C01 C03] err == nil ==> has(stored, a) && has(stored, l)
 //@   ensures[C09] forall id SlabID :: id != old(a.header.slabID) && id != old(a.childrenHeaders)[li].slabID && id != old(a.childrenHeaders)[ri].slabID ==> sto[id] == old(sto[id])
-//@   modifies a.childrenHeaders, a.childrenCountSum, a.header, ghost.sto, ghost.stored, ghost.touched, alloc,
+//@   modifies a.childrenHeaders, a.childrenCountSum, a.header, ghost.sto, ghost.issued, ghost.stored, ghost.touched, alloc,
 //@        as(l, *ArrayDataSlab).elements, as(l, *ArrayDataSlab).header, as(l, *ArrayDataSlab).next,
 //@        as(l, *ArrayMetaDataSlab).childrenHeaders, as(l, *ArrayMetaDataSlab).childrenCountSum, as(l, *ArrayMetaDataSlab).header
 
@@ -278,7 +298,7 @@ package atree
 //@   ensures[C01 C03] err == nil ==> has(stored, a)
 //@   ensures[C09] forall id SlabID :: id != old(a.header.slabID) && (forall k :: 0 <= k && k < len(old(a.childrenHeaders)) ==> id != old(a.childrenHeaders)[k].slabID) ==> sto[id] == old(sto[id])
 //@   modifies ArrayMetaDataSlab.childrenHeaders@inSub(a), ArrayMetaDataSlab.childrenCountSum@inSub(a), ArrayMetaDataSlab.header@inSub(a),
-//@        ArrayDataSlab.elements@inSub(a), ArrayDataSlab.header@inSub(a), ArrayDataSlab.next@inSub(a), ghost.sto, ghost.stored, ghost.touched, alloc
+//@        ArrayDataSlab.elements@inSub(a), ArrayDataSlab.header@inSub(a), ArrayDataSlab.next@inSub(a), ghost.sto, ghost.issued, ghost.stored, ghost.touched, alloc
 
 //@ # ---- positional operations through an index slab
 
@@ -322,7 +342,7 @@ package atree
 //@   ensures[C01 C03] err == nil ==> has(stored, a)
 //@   ensures[C18] err != nil ==> categorised(err)
 //@   modifies ArrayMetaDataSlab.childrenHeaders@inSub(a), ArrayMetaDataSlab.childrenCountSum@inSub(a), ArrayMetaDataSlab.header@inSub(a),
-//@        ArrayDataSlab.elements@inSub(a), ArrayDataSlab.header@inSub(a), ArrayDataSlab.next@inSub(a), ghost.sto, ghost.stored, ghost.touched, alloc,
+//@        ArrayDataSlab.elements@inSub(a), ArrayDataSlab.header@inSub(a), ArrayDataSlab.next@inSub(a), ghost.sto, ghost.issued, ghost.stored, ghost.touched, alloc,
 //@        as(valueRoot(value), *ArrayDataSlab).header, as(valueRoot(value), *ArrayDataSlab).inlined, as(valueRoot(value), *MapDataSlab).header, as(valueRoot(value), *MapDataSlab).inlined
 
 //@ func (a *ArrayMetaDataSlab) Insert(storage, address, index, value) (err)  serves C01 C03 C05 C06 C09 C18
@@ -340,7 +360,7 @@ package atree
 //@   ensures[C01 C03] err == nil ==> has(stored, a)
 //@   ensures[C18] err != nil ==> categorised(err)
 //@   modifies ArrayMetaDataSlab.childrenHeaders@inSub(a), ArrayMetaDataSlab.childrenCountSum@inSub(a), ArrayMetaDataSlab.header@inSub(a),
-//@        ArrayDataSlab.elements@inSub(a), ArrayDataSlab.header@inSub(a), ArrayDataSlab.next@inSub(a), ghost.sto, ghost.stored, ghost.touched, alloc,
+//@        ArrayDataSlab.elements@inSub(a), ArrayDataSlab.header@inSub(a), ArrayDataSlab.next@inSub(a), ghost.sto, ghost.issued, ghost.stored, ghost.touched, alloc,
 //@        as(valueRoot(value), *ArrayDataSlab).header, as(valueRoot(value), *ArrayDataSlab).inlined, as(valueRoot(value), *MapDataSlab).header, as(valueRoot(value), *MapDataSlab).inlined
 //@   loop 1: invariant childHeaderIndex <= i && i <= len(a.childrenCountSum) && len(a.childrenCountSum) == len(a.childrenHeaders) &&
 //@        a.childrenHeaders == old(a.childrenHeaders) && a.header.count == old(a.header.count) + 1 && a.header.size == old(a.header.size) && a.header.slabID == old(a.header.slabID) &&
@@ -360,7 +380,7 @@ package atree
 //@   ensures[C01 C03] err == nil ==> has(stored, a)
 //@   ensures[C18] err != nil ==> categorised(err)
 //@   modifies ArrayMetaDataSlab.childrenHeaders@inSub(a), ArrayMetaDataSlab.childrenCountSum@inSub(a), ArrayMetaDataSlab.header@inSub(a),
-//@        ArrayDataSlab.elements@inSub(a), ArrayDataSlab.header@inSub(a), ArrayDataSlab.next@inSub(a), ghost.sto, ghost.stored, ghost.touched, alloc
+//@        ArrayDataSlab.elements@inSub(a), ArrayDataSlab.header@inSub(a), ArrayDataSlab.next@inSub(a), ghost.sto, ghost.issued, ghost.stored, ghost.touched, alloc
 //@   loop 1: invariant childHeaderIndex <= i && i <= len(a.childrenCountSum) && len(a.childrenCountSum) == len(a.childrenHeaders) &&
 //@        a.childrenHeaders == old(a.childrenHeaders) && a.header.count == old(a.header.count) - 1 && a.header.size == old(a.header.size) && a.header.slabID == old(a.header.slabID) &&
 //@        (forall k :: 0 <= k && k < len(a.childrenCountSum) ==> a.childrenCountSum[k] == old(a.childrenCountSum)[k] - ite(childHeaderIndex <= k && k < i, 1, 0))
